@@ -133,7 +133,12 @@ Fixpoint eval (fuel : nat) (e : exp) {struct fuel} : eres :=
                   let red' := red || rt in
                   match get_const et with
                   | Some v => (match fst x with OpPlus => int64 (cs + v) | OpMinus => int64 (cs - v) end, terms, ops, red')
-                  | None => (cs, et :: terms, (match terms with [] => ops | _ => fst x :: ops end), red')
+                  | None =>
+                      match terms, fst x with
+                      | [], OpMinus => (cs, [et; ENum 0], [OpMinus], red')      (* "c - X": kept as 0 - X (+ c) so that the sign survives (fix in /repo) *)
+                      | [], OpPlus => (cs, [et], ops, red')
+                      | _, _ => (cs, et :: terms, fst x :: ops, red')
+                      end
                   end
               end in
             let '(cs, rterms, rops, red) := fold_left step ets start in
